@@ -126,6 +126,8 @@ pub enum E {
     Delay(u32, u32, Box<E>, Box<E>),
     Now,
     SampleRate,
+    /// verbatim source text (used by type-changing mutations)
+    Raw(String),
 }
 
 #[derive(Clone, Debug, PartialEq)]
@@ -1076,7 +1078,7 @@ fn render_pat(p: &Pat, out: &mut String) {
 }
 
 fn atomic(e: &E) -> bool {
-    matches!(e, E::Lit(_) | E::Var(_) | E::SelfV | E::Now | E::SampleRate | E::Call(..) | E::B1(..) | E::B2(..) | E::Mem(..) | E::Delay(..) | E::Tup(_) | E::Rec(_) | E::Proj(..) | E::Field(..) | E::Block(..) | E::RecUpd(..))
+    matches!(e, E::Raw(_) | E::Lit(_) | E::Var(_) | E::SelfV | E::Now | E::SampleRate | E::Call(..) | E::B1(..) | E::B2(..) | E::Mem(..) | E::Delay(..) | E::Tup(_) | E::Rec(_) | E::Proj(..) | E::Field(..) | E::Block(..) | E::RecUpd(..))
 }
 
 fn render_sub(e: &E, lay: &Layout, level: usize, out: &mut String, cn: &mut usize) {
@@ -1267,6 +1269,7 @@ fn render_e_inner(e: &E, lay: &Layout, level: usize, out: &mut String, cn: &mut 
         }
         E::Now => out.push_str("now"),
         E::SampleRate => out.push_str("samplerate"),
+        E::Raw(t) => out.push_str(t),
     }
 }
 
@@ -1290,4 +1293,136 @@ fn render_branch(e: &E, lay: &Layout, level: usize, out: &mut String, cn: &mut u
             out.push_str(" }");
         }
     }
+}
+
+// ---------------------------------------------------------------------- traversal / mutation
+
+/// pre-order visit of every expression node (mutable)
+pub fn visit_mut(e: &mut E, f: &mut dyn FnMut(&mut E)) {
+    f(e);
+    match e {
+        E::Lit(_) | E::Var(_) | E::SelfV | E::Now | E::SampleRate | E::Raw(_) => {}
+        E::Bin(_, a, b) | E::B2(_, a, b) | E::Pipe(_, a, b) => {
+            visit_mut(a, f);
+            visit_mut(b, f);
+        }
+        E::Neg(a) | E::B1(_, a) | E::Proj(a, _) | E::Field(a, _) | E::Mem(_, a) => visit_mut(a, f),
+        E::If(c, a, b) => {
+            visit_mut(c, f);
+            visit_mut(a, f);
+            visit_mut(b, f);
+        }
+        E::Block(ss, last) => {
+            for s in ss {
+                match s {
+                    S::Let(_, x) | S::Assign(_, x) => visit_mut(x, f),
+                }
+            }
+            visit_mut(last, f);
+        }
+        E::Tup(es) => es.iter_mut().for_each(|x| visit_mut(x, f)),
+        E::Rec(fs) => fs.iter_mut().for_each(|(_, x)| visit_mut(x, f)),
+        E::RecUpd(a, fs) => {
+            visit_mut(a, f);
+            fs.iter_mut().for_each(|(_, x)| visit_mut(x, f));
+        }
+        E::Lam(_, b) => visit_mut(b, f),
+        E::Call(_, c, args) => {
+            visit_mut(c, f);
+            args.iter_mut().for_each(|x| visit_mut(x, f));
+        }
+        E::Delay(_, _, x, t) => {
+            visit_mut(x, f);
+            visit_mut(t, f);
+        }
+    }
+}
+
+pub fn visit_prog_mut(p: &mut Prog, f: &mut dyn FnMut(&mut E)) {
+    for t in &mut p.tops {
+        match t {
+            Top::Fn(d) => visit_mut(&mut d.body, f),
+            Top::Let(_, _, e) => visit_mut(e, f),
+        }
+    }
+}
+
+pub const MUTATIONS: &[&str] = &["to-tuple", "to-lambda", "to-string", "project", "call-it", "to-self", "to-record", "field", "drop-arg", "add-arg", "to-int", "to-array", "index", "swap-arms-type", "to-unit-block", "param-annot"];
+
+/// Apply one type-changing mutation to a random expression node.  Returns its name.
+pub fn mutate(p: &mut Prog, g: &mut Gen, allow_unit_block: bool) -> &'static str {
+    let mut n = 0usize;
+    visit_prog_mut(p, &mut |_| n += 1);
+    if n == 0 {
+        return "none";
+    }
+    let target = g.usize_below(n);
+    let mut kind = *g.pick(MUTATIONS);
+    if kind == "to-unit-block" && !allow_unit_block {
+        kind = "to-string";
+    }
+    if kind == "param-annot" {
+        // change a parameter annotation to another type
+        let mut fns: Vec<&mut FnDef> = p.tops.iter_mut().filter_map(|t| if let Top::Fn(d) = t { Some(d) } else { None }).filter(|d| !d.params.is_empty() && d.name != "dsp").collect();
+        if fns.is_empty() {
+            return "none";
+        }
+        let i = g.usize_below(fns.len());
+        let d = &mut fns[i];
+        let j = g.usize_below(d.params.len());
+        d.params[j].annotate = true;
+        d.params[j].ty = match g.below(3) {
+            0 => Ty::Tup(vec![Ty::Num, Ty::Num]),
+            1 => Ty::Fun(vec![Ty::Num], Box::new(Ty::Num)),
+            _ => Ty::Rec(vec![("zz".into(), Ty::Num)]),
+        };
+        return kind;
+    }
+    let mut i = 0usize;
+    let mut done = false;
+    visit_prog_mut(p, &mut |e| {
+        if i == target && !done {
+            done = true;
+            let old = e.clone();
+            *e = match kind {
+                "to-tuple" => E::Tup(vec![old, E::Lit("1.0".into())]),
+                "to-lambda" => E::Lam(vec![Param { name: "qq".into(), ty: Ty::Num, annotate: false }], Box::new(E::Var("qq".into()))),
+                "to-string" => E::Raw("\"s\"".into()),
+                "project" => E::Proj(Box::new(old), 1),
+                "call-it" => E::Call(0, Box::new(old), vec![E::Lit("1.0".into())]),
+                "to-self" => E::SelfV,
+                "to-record" => E::Rec(vec![("zz".into(), old)]),
+                "field" => E::Field(Box::new(old), "zz".into()),
+                "drop-arg" => match old {
+                    E::Call(id, f, mut args) if !args.is_empty() => {
+                        args.pop();
+                        E::Call(id, f, args)
+                    }
+                    o => E::Tup(vec![o.clone(), o]),
+                },
+                "add-arg" => match old {
+                    E::Call(id, f, mut args) => {
+                        args.push(E::Lit("2.0".into()));
+                        E::Call(id, f, args)
+                    }
+                    o => E::Call(0, Box::new(o), vec![]),
+                },
+                "to-int" => E::Raw("1".into()),
+                "to-array" => E::Raw("[1.0, 2.0]".into()),
+                "index" => {
+                    let mut s = String::new();
+                    let mut cn = 0;
+                    render_e(&old, &Layout::default(), 0, &mut s, &mut cn);
+                    E::Raw(format!("({s})[0]"))
+                }
+                "swap-arms-type" => match old {
+                    E::If(c, a, _) => E::If(c, a, Box::new(E::Tup(vec![E::Lit("1.0".into()), E::Lit("2.0".into())]))),
+                    o => E::If(Box::new(E::Lit("1.0".into())), Box::new(o), Box::new(E::Raw("\"s\"".into()))),
+                },
+                _ => E::Block(vec![S::Let(Pat::Var("uu".into()), old)], Box::new(E::Raw("{}".into()))),
+            };
+        }
+        i += 1;
+    });
+    kind
 }
